@@ -71,6 +71,19 @@ Section Beamspread.
     n1 N / nsqrt N (virtual_distance (rev legs) (rev_gamma_list (rev vel) (rev thetas))).
 End Beamspread.
 
+(* ---- material_attenuation_for_path for one ray --------------------------------
+   log_att = 0; for each leg k (in path order): if the material has an attenuation for the
+   leg's mode: log_att -= att_coeff * inc_leg_size(k); result exp(log_att).
+   `atts` holds one optional coefficient per leg (None = no attenuation defined). *)
+Section Attenuation.
+  Context {T : Type} (N : Num T).
+  Definition attenuation (atts : list (option T)) (legs : list T) : T :=
+    nexp N (fold_left (fun acc ar => match fst ar with
+                                     | None => acc
+                                     | Some a => nsub N acc (nmul N a (snd ar))
+                                     end) (combine atts legs) (n0 N)).
+End Attenuation.
+
 (* ---- specification: divergence of an infinitesimal ray tube ---------------
    State after a leg: (rho, amp) = (radius of curvature of the wavefront at the
    end of the leg, amplitude there).  Leg 1: (r_1, 1/sqrt r_1).  Crossing an
